@@ -19,7 +19,7 @@ VERIF = os.path.dirname(os.path.dirname(os.path.abspath(__file__)))
 REPO = os.environ.get("VERIF_REPO", "/repo")
 ALT = REPO != "/repo"
 SPEC = os.path.join(VERIF, "spec")
-BUILD = os.path.join(VERIF, ".build-alt" if ALT else ".build")
+BUILD = os.path.join(VERIF, ".build-alt" + os.environ.get("VERIF_ALT_TAG", "") if ALT else ".build")
 GEN = os.path.join(BUILD, "gen") if ALT else os.path.join(SPEC, "gen")
 HARNESS = os.path.join(VERIF, "harness")
 OUT = BUILD if ALT else VERIF          # where evidence/ and replays/ go
